@@ -4,7 +4,7 @@
    a strictly ascending list bounded by a capacity).  Every theorem holds for every element type,
    every comparator that is a strict weak order, every capacity and every history. *)
 From Tetl Require Import Lib.Base C06a.Model C09.Ops C09.Model C09.Spec C09.ProofsCore C09.ProofsOps
-  C09.ProofsRun C09.ProofsMain.
+  C09.ProofsRun C09.ProofsExtra C09.ProofsMain.
 From Coq Require Import Sorting.Sorted Sorting.Permutation.
 
 (** 1. The invariant, over ALL histories (every call of the vocabulary, valid or not, in any order,
@@ -49,6 +49,21 @@ Theorem C09_set_refines_std :
   /\ (forall c, cut_ok lt c -> ask k true c (cur s2) = Ok (s_ask c (cur s2))).
 Proof. exact (@main_refines_std). Qed.
 Print Assumptions C09_set_refines_std.
+
+(** 2a. The same against std::set WITHOUT any capacity (Spec.u_run mentions no capacity and never
+        refuses a key): as long as capacity is not exceeded -- no set along the history holds more
+        than cap elements and no container handed to the set (assignment from a container, replace)
+        holds more than cap elements -- the model returns exactly the unbounded std::set's trace,
+        in which no refusal occurs. *)
+Theorem C09_set_refines_unbounded_std :
+  forall (A : Type) (lt : A -> A -> bool), strict_weak lt ->
+  forall (k : kind) (cap : nat) (ops : list (op A)) s2 tr2,
+  u_run lt k init ops = Some (s2, tr2) -> Forall (within cap) ops ->
+  Forall (fun e => length (snd e) <= cap) tr2 ->
+  run lt k cap init ops = Ok (s2, map (present_ev k) tr2)
+  /\ Forall (fun e => fst e <> SFull) tr2.
+Proof. exact (@main_refines_unbounded_std). Qed.
+Print Assumptions C09_set_refines_unbounded_std.
 
 (** 2b. The lookups on any strictly sorted list (not only the reachable ones). *)
 Theorem C09_lookup_key_refines_std :
@@ -111,6 +126,38 @@ Theorem C09_flat_multiset_sorted_perm :
 Proof. exact (@main_flat_multiset). Qed.
 Print Assumptions C09_flat_multiset_sorted_perm.
 
+(** 5b. ... and iterates exactly like std::multiset built from the same range (each element
+        inserted at the upper bound of its equivalents: the stable arrangement). *)
+Theorem C09_flat_multiset_is_std_multiset :
+  forall (A : Type) (lt : A -> A -> bool), strict_weak lt ->
+  forall (input : list A), fms_construct lt input = Ok (s_multiset_of_range lt input).
+Proof. exact (@main_flat_multiset_is_std_multiset). Qed.
+Print Assumptions C09_flat_multiset_is_std_multiset.
+
+(** 6. About the specification itself (so that Spec.v need not be taken on faith): its insert is
+       set insertion -- the result is a set; the key is inserted iff no equivalent element is
+       there; the members afterwards are the old ones plus the key iff inserted; the returned
+       position holds an element equivalent to the key (the key itself when inserted) -- and a set
+       value is determined by its members (the iteration order is not a choice). *)
+Theorem C09_spec_insert_is_set_insertion :
+  forall (A : Type) (lt : A -> A -> bool), strict_weak lt ->
+  forall (x : A) (l : list A), is_set lt l ->
+  let l' := fst (s_insert lt x l) in
+  let p := fst (snd (s_insert lt x l)) in
+  let b := snd (snd (s_insert lt x l)) in
+  is_set lt l'
+  /\ b = negb (existsb (eqv lt x) l)
+  /\ (forall e, In e l' <-> In e l \/ (b = true /\ e = x))
+  /\ (exists e, nth_error l' p = Some e /\ eqv lt x e = true /\ (b = true -> e = x)).
+Proof. exact (@main_spec_insert_meaning). Qed.
+Print Assumptions C09_spec_insert_is_set_insertion.
+
+Theorem C09_spec_set_is_canonical :
+  forall (A : Type) (lt : A -> A -> bool), strict_weak lt ->
+  forall (l1 l2 : list A), is_set lt l1 -> is_set lt l2 -> (forall e, In e l1 <-> In e l2) -> l1 = l2.
+Proof. exact (@main_is_set_canonical). Qed.
+Print Assumptions C09_spec_set_is_canonical.
+
 (** Non-vacuity: strict weak orders exist (one with equivalence coarser than equality), the
     domain of theorem 2 contains a history that reaches a full set, a duplicate, a refused new key
     and an erase of an absent key with a successor. *)
@@ -122,9 +169,18 @@ Example C09_nonvacuous :
         = Some (s2, tr2) /\ oth s2 = [3%Z; 5%Z] /\ length tr2 = 8)
   /\ (exists s2 tr2,
         s_run Z.ltb FlatSet 2 init [Assign [2%Z; 1%Z]; Extract; Replace [0%Z; 7%Z]; Insert 4%Z; Clear]
-        = Some (s2, tr2) /\ cur s2 = [0%Z; 7%Z] /\ length tr2 = 4).
+        = Some (s2, tr2) /\ cur s2 = [0%Z; 7%Z] /\ length tr2 = 4)
+  /\ (exists s2 tr2,   (* the hypotheses of 2a: a history that fills the set exactly *)
+        u_run Z.ltb StaticSet init
+          [Insert 3%Z; AssignIter [5%Z; 1%Z; 5%Z; 3%Z]; Swap; Insert 2%Z; CopyFrom; EraseKey 2%Z; Insert 3%Z]
+        = Some (s2, tr2) /\ cur s2 = [1%Z; 3%Z; 5%Z]
+        /\ Forall (within 3) [Insert 3%Z; AssignIter [5%Z; 1%Z; 5%Z; 3%Z]; Swap; Insert 2%Z; CopyFrom; EraseKey 2%Z; Insert 3%Z]
+        /\ Forall (fun e => length (snd e) <= 3) tr2).
 Proof.
-  split; [exact ltb_strict_weak|]. split; [exact half_strict_weak|]. split.
+  split; [exact ltb_strict_weak|]. split; [exact half_strict_weak|]. split; [|split].
   - eexists. eexists. split; [vm_compute; reflexivity|]. split; reflexivity.
   - eexists. eexists. split; [vm_compute; reflexivity|]. split; reflexivity.
+  - eexists. eexists. split; [vm_compute; reflexivity|]. split; [reflexivity|]. split.
+    + repeat constructor.
+    + repeat (constructor; [cbn [snd length]; lia|]). constructor.
 Qed.
